@@ -53,6 +53,13 @@ Definition is_terminal (rid : id) (m : msg) : bool :=
 Definition same_key (rid : id) (m : msg) : bool :=
   match m_id m with Some i => str_eqb (key i) (key rid) | None => false end.
 
+(** [m] has a method: a request or a notification of the SERVER's own (ids are per direction: its id says nothing) *)
+Definition kind_call (k : kind) : bool := match k with KReq | KNotif => true | _ => false end.
+
+(** [m] bears the key of request [rid] and is not a call of the server's own: only such a message can be meant as
+    the answer to [rid]. *)
+Definition answer_key (rid : id) (m : msg) : bool := same_key rid m && negb (kind_call (m_kind m)).
+
 (** Body of a POST reply: JSON that validates as a message, JSON that does
     not, or not JSON at all (empty, text, truncated). *)
 Inductive body := BMsg (m : msg) | BInvalid | BNotJson.
